@@ -110,7 +110,10 @@ class _Prog(nn.Module):
                 a, b = vals[op['srcs'][0]], vals[op['srcs'][1]]
                 y = torch.add(a, b) if op.get('kind') == 'torch' else operator.add(a, b)
             elif k == 'cat':
-                y = torch.cat([vals[s] for s in op['srcs']], dim=op['dim'])
+                if op.get('kw') == 'axis':      # numpy-style keyword accepted by torch.cat
+                    y = torch.cat([vals[s] for s in op['srcs']], axis=op['dim'])
+                else:
+                    y = torch.cat([vals[s] for s in op['srcs']], dim=op['dim'])
             elif k == 'flat':
                 x = vals[op['src']]
                 if op['kind'] == 'mod':
@@ -1028,6 +1031,7 @@ def pad_sharing_program(rng, mode='per-site'):
 
 
 SPECIALS = ['split-out', 'split-res', 'pad-per-site', 'pad-shared']
+SPECIALS2 = ['add-of-two-cats', 'cat-neg-dim', 'cat-axis-kw']
 
 
 def special_program(rng, family, name, delay=0):
@@ -1040,6 +1044,8 @@ def special_program(rng, family, name, delay=0):
         return pad_sharing_program(rng, 'per-site')
     if name == 'pad-shared':
         return pad_sharing_program(rng, 'shared-pad')
+    if name in SPECIALS2:
+        return cat_variants_program(rng, family, name)
     raise ValueError(name)
 
 
@@ -1047,12 +1053,59 @@ def special_cases(n, seed, base):
     """n case dictionaries `base` + {'special', 'delay', 'family', seeds}: every production, both
     families, delays 0..5 (the delay decides which call site a reverse BFS reaches first)"""
     out = []
+    allsp = SPECIALS + SPECIALS2
     for i in range(n):
-        name = SPECIALS[i % 4]
-        fam = '1d' if name.startswith('pad') or (i // 4) % 2 == 0 else '2d'
+        name = allsp[i % len(allsp)]
+        fam = '1d' if name.startswith('pad') or (i // len(allsp)) % 2 == 0 else '2d'
         out.append(dict(base, special=name, delay=(i // 8) % 6, family=fam,
                         prog_seed=seed * 6007 + 500 + i, seed=seed * 6011 + i))
     return out
+
+
+def cat_variants_program(rng, family, name):
+    """Channel concatenations in three further arrangements: the residual sum of TWO concatenations
+    (`cat(a, b) + cat(c, d)`: no single mask can describe either side, so all four layers must keep
+    their width), and a plain `cat(a, b)` whose channel axis is spelled as a negative index
+    (`dim=-2` for 3-D, `dim=-3` for 4-D tensors) or with the `axis=` keyword."""
+    c = rng.randint(1, 3)
+    if family == '1d':
+        inputs = [[c, rng.randint(6, 10)]]
+        geo = {'k': rng.choice([1, 3]), 'd': 1, 's': 1, 'pad': 'same'}
+        neg = -2
+    else:
+        inputs = [[c, rng.randint(5, 7), rng.randint(5, 7)]]
+        geo = {'k': 3, 'd': 1, 's': 1, 'pad': 'same'}
+        neg = -3
+
+    def conv(nm, src, out, cin, cout):
+        return dict({'op': 'conv', 'name': nm, 'src': src, 'out': out, 'cin': cin, 'cout': cout,
+                     'bias': True, 'dw': False}, **geo)
+    wa, wb = rng.randint(2, 5), rng.randint(2, 5)
+    ops = [conv('a', 'x0', 'ta', c, wa), conv('b', 'x0', 'tb', c, wb)]
+    cat = {'op': 'cat', 'srcs': ['ta', 'tb'], 'dim': 1, 'axis': 1, 'out': 'k0'}
+    feats = ['cat', 'conv', 'lin', 'pool', 'flat', 'cat:search-search', name]
+    if name == 'cat-neg-dim':
+        cat['dim'] = neg
+    elif name == 'cat-axis-kw':
+        cat['kw'] = 'axis'
+    ops.append(cat)
+    cur = 'k0'
+    if name == 'add-of-two-cats':
+        wc = rng.randint(1, wa + wb - 1)
+        ops += [conv('c', 'x0', 'tc', c, wc), conv('d', 'x0', 'td', c, wa + wb - wc),
+                {'op': 'cat', 'srcs': ['tc', 'td'], 'dim': 1, 'axis': 1, 'out': 'k1'},
+                {'op': 'add', 'srcs': ['k0', 'k1'], 'kind': 'op', 'out': 'r'}]
+        cur = 'r'
+        feats.append('add')
+    ops += [{'op': 'act', 'kind': 'relu_f', 'src': cur, 'out': 'r1'},
+            conv('e', 'r1', 'te', wa + wb, rng.randint(2, 4)),
+            {'op': 'pool', 'kind': 'aavg', 'k': 0, 'name': 'gap', 'src': 'te', 'out': 'g'},
+            {'op': 'flat', 'kind': 'meth', 'src': 'g', 'out': 'f'}]
+    e = next(o for o in ops if o.get('name') == 'e')
+    ops.append({'op': 'lin', 'name': 'fc', 'src': 'f', 'out': 'o', 'fin': e['cout'], 'fout': 3,
+                'bias': True})
+    return {'family': family, 'inputs': inputs, 'ops': ops, 'out': 'o', 'excluded': [],
+            'features': feats, 'traits': []}
 
 
 def tensor_shapes(prog):
